@@ -34,3 +34,9 @@ mod tests {
         assert!(matcher_io.should_quit());
     }
 }
+
+// Verification hook: harnesses live outside the repository (see MANIFEST.hooks of the verifier).
+#[cfg(kani)]
+pub(crate) mod verif_kani {
+    include!(concat!(env!("FINDUTILS_VERIF_DIR"), "/harness/m_quit.rs"));
+}
